@@ -114,15 +114,33 @@ def extend(g, api):
         if which == 'over':
             m = find(r'if (datagram\.data\.len\(\) [<>=!]+ window) \{ return Err\(TransportError::PROTOCOL_VIOLATION\("oversized datagram"\)\); \}', b, 'received oversize guard')
         elif which == 'loop':
-            m = find(r'while (datagram\.data\.len\(\) \+ self\.recv_buffered [<>=!]+ window) \{ debug!\("dropping stale datagram"\); self\.recv\(\); \}', b, 'received eviction loop')
+            # the loop leaves when `recv()` finds the queue empty (`break`), so it cannot spin
+            find(r'let cost = Self::recv_cost\(&datagram\.data\); if cost ', b, 'received cost')
+            m = find(r'while (cost \+ self\.recv_buffered [<>=!]+ window) \{ debug!\("dropping stale datagram"\); if self\.recv\(\)\.is_none\(\) \{ break; \} \}', b, 'received eviction loop')
         else:
             m = find(r'let was_empty = (self\.recv_buffered [<>=!]+ 0);', b, 'received was_empty')
-            find(r'self\.recv_buffered \+= datagram\.data\.len\(\); self\.incoming\.push_back\(datagram\); Ok\(was_empty\) \}$', b, 'received tail')
+            find(r'self\.recv_buffered \+= cost; self\.incoming\.push_back\(datagram\); Ok\(was_empty\) \}$', b, 'received tail')
         e = m.group(1).replace('datagram.data.len()', 'len')
-        return translate_expr(e, {'len': 'len', 'window': 'window', 'self.recv_buffered': 'recvBuffered'})
+        return translate_expr(e, {'len': 'len', 'cost': 'cost', 'window': 'window', 'self.recv_buffered': 'recvBuffered'})
     fun('dgOversized', ['len', 'window'], 'Bool', DG + '::DatagramState::received oversize guard', lambda: rcv('over'))
-    fun('dgMustEvict', ['len', 'recvBuffered', 'window'], 'Bool', DG + '::DatagramState::received eviction loop guard', lambda: rcv('loop'))
+    fun('dgMustEvict', ['cost', 'recvBuffered', 'window'], 'Bool', DG + '::DatagramState::received eviction loop guard', lambda: rcv('loop'))
     fun('dgWasEmpty', ['recvBuffered'], 'Bool', DG + '::DatagramState::received was_empty', lambda: rcv('empty'))
+
+    def cost_too_big():
+        b = body(DG, 'received')
+        # a datagram charged more than the whole buffer (an empty one, window 0) is dropped, not buffered, no error
+        m = find(r'let cost = Self::recv_cost\(&datagram\.data\); if (cost [<>=!]+ window) \{ debug!\("[^"]*"\); return Ok\(false\); \} let was_empty = ', b, 'received cost-exceeds-buffer guard')
+        return translate_expr(m.group(1), {'cost': 'cost', 'window': 'window'})
+    fun('dgCostTooBig', ['cost', 'window'], 'Bool', DG + '::DatagramState::received cost-exceeds-buffer guard', cost_too_big)
+
+    def recv_cost():
+        b = body(DG, 'recv_cost')
+        m = find(r'^\{ (data\.len\(\)\.max\(\d+\)) \}$', b, 'recv_cost')
+        # the same charge is taken back when the datagram leaves the queue
+        find(r'^\{ let x = self\.incoming\.pop_front\(\)\?\.data; self\.recv_buffered -= Self::recv_cost\(&x\); Some\(x\) \}$',
+             body(DG, 'recv', after='impl DatagramState'), 'DatagramState::recv')
+        return translate_expr(m.group(1).replace('data.len()', 'len'), {'len': 'len'})
+    fun('dgRecvCost', ['len'], 'Nat', DG + '::DatagramState::recv_cost (charge per buffered datagram; recv takes the same back)', recv_cost)
 
     def keep():
         b = body(DG, 'drop_oversized')
